@@ -158,6 +158,21 @@ CHECKS['C08'] = dict(
          'against calculate() and the model. Volatile cells are the subject of C13.',
     technique='Lean 4 proof (freezing lemma, substitution lemma) + differential correspondence')
 
+CHECKS['C09'] = dict(
+    text=('Lean 4 theorems (XL.Props.C09): quote_roundtrip (doubling then un-doubling quotes is the identity on every '
+          'text), strBody_doubleQ / escaped_text_token (for EVERY text, the escaped export ="..." is read by the '
+          'tokeniser as exactly one string literal whose body is the doubled text) — the part of the export that had '
+          'the defects repaired by a fix: commit; export_reparse_instances (kernel-checked instances of "exported '
+          'text parses back to itself"); signrun_export_counterexample (known finding). The general parse(render t) = t '
+          'is not yet proved (DESIGN §9). The check runs json.dumps(to_dict()) -> from_dict -> calculate -> to_dict '
+          'on random workbooks and on hand-built .xlsx workbooks with tricky constants, sheet names that need '
+          'quoting, array formulas, names and unresolved items (values of every node equal, second export equal to '
+          'the first) and re-parses the exported text of every generated formula tree.'),
+    design='DESIGN.md §3 C09',
+    note=COMMON_NOTE + 'to_dict/from_dict are the identity on the workbook model apart from the textual encodings; json, '
+         'openpyxl and the dispatcher are external. Known findings: sign-run, double-percent, newline-join.',
+    technique='Lean 4 proof of the escape encoding for all texts + round-trip oracle on the implementation + correspondence of re-parsing')
+
 NOT_YET = {
 }
 
